@@ -434,3 +434,515 @@ fn qos2_publish_is_forwarded_on_release_only_and_once() {
     }
     report(name, "C06", "1..=3 QoS 2 publishes released in publish order", cases, fail);
 }
+
+// ---------------------------------------------------------------------------------------------
+// reference matcher (the MQTT rules as stated in C12) used by the delivery oracles
+// ---------------------------------------------------------------------------------------------
+fn ref_match_levels(t: &[&str], f: &[&str]) -> bool {
+    match (f.first(), t.first()) {
+        (None, None) => true,
+        (None, Some(_)) => false,
+        (Some(&"#"), _) if f.len() == 1 => true,
+        (Some(_), None) => false,
+        (Some(&"+"), Some(_)) => ref_match_levels(&t[1..], &f[1..]),
+        (Some(fl), Some(tl)) => fl == tl && ref_match_levels(&t[1..], &f[1..]),
+    }
+}
+
+fn ref_matches(topic: &str, filter: &str) -> bool {
+    if topic.starts_with('$') {
+        return false;
+    }
+    let t: Vec<&str> = topic.split('/').collect();
+    let f: Vec<&str> = filter.split('/').collect();
+    ref_match_levels(&t, &f)
+}
+
+/// a well-behaved subscriber: reads everything, acknowledges QoS 1 in order, until the router is idle
+fn receive_all(r: &mut Router, c: &Client) -> Vec<(String, String, u8, bool)> {
+    let mut got = vec![];
+    for _ in 0..200 {
+        let batch = drain(r, c);
+        if batch.is_empty() {
+            break;
+        }
+        let mut acks = vec![];
+        for n in batch {
+            if let RNotification::Forward(Forward { publish, .. }) = n {
+                got.push((String::from_utf8_lossy(&publish.topic).to_string(), String::from_utf8_lossy(&publish.payload).to_string(), publish.qos as u8, publish.retain));
+                if publish.qos as u8 == 1 {
+                    acks.push(puback(publish.pkid));
+                }
+            }
+        }
+        if !acks.is_empty() {
+            send(r, c, acks);
+        }
+    }
+    got
+}
+
+fn is_subsequence(needle: &[(String, String)], hay: &[(String, String)]) -> bool {
+    let mut i = 0;
+    for h in hay {
+        if i < needle.len() && *h == needle[i] {
+            i += 1;
+        }
+    }
+    i == needle.len()
+}
+
+const FILTERS: [&str; 5] = ["a/b", "a/+", "#", "a/#", "+/b"];
+const TOPICS: [&str; 4] = ["a/b", "a/c", "b", "$x/b"];
+
+// @native props=C01 tier=quick fn=Router::{handle_device_payload,append_to_commitlog,prepare_filter,consume,forward_device_data}
+#[test]
+fn each_subscriber_gets_exactly_its_matching_messages_in_order() {
+    let name = "rumqttd::Router#exact_delivery_to_matching_subscriptions_in_order";
+    // subscription sets: one or two filters, each QoS 0 or 1
+    let mut subsets: Vec<Vec<(usize, u8)>> = vec![];
+    for i in 0..FILTERS.len() {
+        for q in 0..2u8 {
+            subsets.push(vec![(i, q)]);
+            for j in (i + 1)..FILTERS.len() {
+                for q2 in 0..2u8 {
+                    subsets.push(vec![(i, q), (j, q2)]);
+                }
+            }
+        }
+    }
+    let singles: Vec<Vec<(usize, u8)>> = (0..FILTERS.len()).flat_map(|i| (0..2u8).map(move |q| vec![(i, q)])).collect();
+    let npub = TOPICS.len() * 2;
+    let mut cases = 0u64;
+    let mut fail: Option<String> = None;
+    'outer: for s1 in &subsets {
+        for s2 in &singles {
+            for code in 0..(npub * npub) {
+                cases += 1;
+                let seq = [code % npub, code / npub, (code * 7 + 3) % npub];
+                let mut r = new_router();
+                let c1 = connect(&mut r, "s1", true).unwrap();
+                let c2 = connect(&mut r, "s2", true).unwrap();
+                let p = connect(&mut r, "p", true).unwrap();
+                let f1: Vec<(&str, u8)> = s1.iter().map(|(i, q)| (FILTERS[*i], *q)).collect();
+                send(&mut r, &c1, vec![subscribe(1, &f1)]);
+                let mut exp1: Vec<Vec<(String, String)>> = vec![vec![]; f1.len()];
+                let mut exp2: Vec<(String, String)> = vec![];
+                let f2 = (FILTERS[s2[0].0], s2[0].1);
+                for (k, pc) in seq.iter().enumerate() {
+                    if k == 1 {
+                        // the second subscriber's subscription takes effect between the first and second publish
+                        send(&mut r, &c2, vec![subscribe(2, &[f2])]);
+                    }
+                    let topic = TOPICS[pc % TOPICS.len()];
+                    let q = (pc / TOPICS.len()) as u8;
+                    let payload = format!("m{}", k);
+                    send(&mut r, &p, vec![publish(topic, q, if q == 0 { 0 } else { 10 + k as u16 }, &payload, false)]);
+                    for (fi, (f, _)) in f1.iter().enumerate() {
+                        if ref_matches(topic, f) {
+                            exp1[fi].push((topic.to_string(), payload.clone()));
+                        }
+                    }
+                    if k >= 1 && ref_matches(topic, f2.0) {
+                        exp2.push((topic.to_string(), payload.clone()));
+                    }
+                }
+                let got1 = receive_all(&mut r, &c1);
+                let got2 = receive_all(&mut r, &c2);
+                let desc = || format!("s1 subscribes {:?}; s2 subscribes {:?} after the first publish; publishes (topic index + 4*qos) {:?}", f1, f2, seq);
+                // subscriber 1: per subscription, exactly the matching messages with the granted QoS, in order
+                let mut total = 0;
+                for (fi, (_f, q)) in f1.iter().enumerate() {
+                    total += exp1[fi].len();
+                    let proj: Vec<(String, String)> = got1.iter().filter(|g| g.2 == *q).map(|g| (g.0.clone(), g.1.clone())).collect();
+                    if !is_subsequence(&exp1[fi], &proj) {
+                        fail = Some(format!("input=[{}] detail=[s1 received {:?}; subscription {:?} should have produced {:?} in this order with QoS {}]", desc(), got1, f1[fi], exp1[fi], q));
+                        break 'outer;
+                    }
+                }
+                if got1.len() != total {
+                    fail = Some(format!("input=[{}] detail=[s1 received {} messages {:?}, its subscriptions match {} in total]", desc(), got1.len(), got1, total));
+                    break 'outer;
+                }
+                let proj2: Vec<(String, String)> = got2.iter().map(|g| (g.0.clone(), g.1.clone())).collect();
+                if proj2 != exp2 || got2.iter().any(|g| g.2 != f2.1) {
+                    fail = Some(format!("input=[{}] detail=[s2 received {:?}, expected exactly {:?} with QoS {}]", desc(), got2, exp2, f2.1));
+                    break 'outer;
+                }
+                if got1.iter().chain(got2.iter()).any(|g| g.3) {
+                    fail = Some(format!("input=[{}] detail=[a live forward is flagged retained]", desc()));
+                    break 'outer;
+                }
+            }
+        }
+    }
+    report(name, "C01", "2 subscribers (1-2 filters out of 5, QoS 0/1; second subscribes mid-stream) x 64 publish sequences of 3 over 4 topics incl. a $-topic, QoS 0/1", cases, fail);
+}
+
+// ---------------------------------------------------------------------------------------------
+// C09 (router glue): window never above 100, ids unique among unacknowledged, resumes on in-order acks
+// ---------------------------------------------------------------------------------------------
+// @native props=C09,C01 tier=quick fn=Router::{consume,forward_device_data}+Outgoing::push_forwards
+#[test]
+fn outbound_window_is_bounded_unique_and_resumes_on_acks() {
+    let name = "rumqttd::Router#outbound_window_bounded_unique_resumes_on_ack";
+    let mut cases = 0u64;
+    let mut fail: Option<String> = None;
+    'outer: for backlog in [0usize, 1, 99, 100, 101, 250] {
+        for burst in [1usize, 7, 100] {
+            for two_filters in [false, true] {
+                for retained in [false, true] {
+                    cases += 1;
+                    let mut r = new_router();
+                    let s = connect(&mut r, "s", true).unwrap();
+                    let p = connect(&mut r, "p", true).unwrap();
+                    if retained {
+                        send(&mut r, &p, vec![publish("w/r", 0, 0, "keep", true)]);
+                    }
+                    // the backlog builds up while the subscriber is not reading: subscribe and publish in one router turn
+                    let subs = if two_filters { vec![("w/#", 1u8), ("w/+", 1u8)] } else { vec![("w/#", 1u8)] };
+                    s.ibuf.lock().push_back(subscribe(1, &subs));
+                    r.events(s.id, Event::DeviceData);
+                    let mut pubs = vec![];
+                    for i in 0..backlog {
+                        pubs.push(publish("w/x", 0, 0, &format!("{}", i), false));
+                    }
+                    p.ibuf.lock().extend(pubs);
+                    r.events(p.id, Event::DeviceData);
+                    settle(&mut r);
+                    let expected_total = (backlog + if retained { 1 } else { 0 }) * subs.len();
+                    let mut unacked: VecDeque<u16> = VecDeque::new();
+                    let mut received = 0usize;
+                    let desc = format!("backlog={} ack-burst={} filters={:?} retained_message={}", backlog, burst, subs, retained);
+                    for _round in 0..2000 {
+                        let batch = drain(&mut r, &s);
+                        for n in &batch {
+                            if let RNotification::Forward(Forward { publish, .. }) = n {
+                                received += 1;
+                                if publish.pkid == 0 {
+                                    fail = Some(format!("input=[{}] detail=[QoS 1 publish forwarded with packet id 0]", desc));
+                                    break 'outer;
+                                }
+                                if unacked.contains(&publish.pkid) {
+                                    fail = Some(format!("input=[{}] detail=[packet id {} handed out while still unacknowledged ({} in flight)]", desc, publish.pkid, unacked.len()));
+                                    break 'outer;
+                                }
+                                unacked.push_back(publish.pkid);
+                                if unacked.len() > 100 {
+                                    fail = Some(format!("input=[{}] detail=[{} QoS 1 publishes awaiting acknowledgement towards one client]", desc, unacked.len()));
+                                    break 'outer;
+                                }
+                            }
+                        }
+                        if unacked.is_empty() {
+                            if batch.is_empty() {
+                                break;
+                            }
+                            continue;
+                        }
+                        // acknowledge in order, `burst` at a time; no other stimulus is given
+                        let k = burst.min(unacked.len());
+                        let acks: Vec<Packet> = (0..k).map(|_| puback(unacked.pop_front().unwrap())).collect();
+                        send(&mut r, &s, acks);
+                    }
+                    if r.obufs.get(s.id).is_none() {
+                        fail = Some(format!("input=[{}] detail=[a well-behaved subscriber was disconnected]", desc));
+                        break 'outer;
+                    }
+                    if received != expected_total || !unacked.is_empty() {
+                        fail = Some(format!("input=[{}] detail=[{} of {} messages delivered after all acknowledgements, broker idle]", desc, received, expected_total));
+                        break 'outer;
+                    }
+                }
+            }
+        }
+    }
+    report(name, "C09,C01", "backlogs 0,1,99,100,101,250 x ack bursts 1,7,100 x one/two filters x with/without a retained message", cases, fail);
+}
+
+// ---------------------------------------------------------------------------------------------
+// C08: persistent sessions
+// ---------------------------------------------------------------------------------------------
+#[derive(Clone, Copy, Debug)]
+enum End {
+    LinkFailure,
+    DisconnectPacket,
+    Takeover,
+}
+
+// @native props=C08 tier=quick fn=Router::{handle_disconnection,handle_new_connection}+Graveyard+Outgoing::retransmission_map
+#[test]
+fn persistent_session_resumes_from_the_oldest_unacknowledged_message() {
+    let name = "rumqttd::Router#persistent_session_resume";
+    let mut cases = 0u64;
+    let mut fail: Option<String> = None;
+    'outer: for k1 in 0..=3usize {
+        for acked in 0..=k1 {
+            for k2 in 0..=2usize {
+                for end in [End::LinkFailure, End::DisconnectPacket, End::Takeover] {
+                    for cycles in 1..=2usize {
+                        cases += 1;
+                        let desc = format!("{} messages delivered, {} acknowledged, connection ends by {:?}, {} messages while away, {} reconnect cycle(s)", k1, acked, end, k2, cycles);
+                        let mut r = new_router();
+                        let p = connect(&mut r, "p", true).unwrap();
+                        let mut c = connect(&mut r, "c", false).unwrap();
+                        send(&mut r, &c, vec![subscribe(1, &[("s/#", 1)])]);
+                        let first = shown(&drain(&mut r, &c));
+                        if !first.contains(&"CONNACK(sp=false)".to_string()) {
+                            fail = Some(format!("input=[{}] detail=[first connect answered {:?}]", desc, first));
+                            break 'outer;
+                        }
+                        let mut seqno = 0;
+                        let mut last_pkids: Vec<u16> = vec![];
+                        let mut expected_pending: Vec<String> = vec![];
+                        for _ in 0..k1 {
+                            send(&mut r, &p, vec![publish("s/t", 1, 50, &format!("m{}", seqno), false)]);
+                            expected_pending.push(format!("m{}", seqno));
+                            seqno += 1;
+                        }
+                        let delivered: Vec<(u16, String)> = drain(&mut r, &c).into_iter().filter_map(|n| match n { RNotification::Forward(Forward { publish, .. }) => Some((publish.pkid, String::from_utf8_lossy(&publish.payload).to_string())), _ => None }).collect();
+                        if delivered.iter().map(|d| d.1.clone()).collect::<Vec<_>>() != expected_pending {
+                            fail = Some(format!("input=[{}] detail=[before the disconnect the client received {:?}]", desc, delivered));
+                            break 'outer;
+                        }
+                        let acks: Vec<Packet> = delivered.iter().take(acked).map(|d| puback(d.0)).collect();
+                        if !acks.is_empty() {
+                            send(&mut r, &c, acks);
+                        }
+                        expected_pending.drain(..acked);
+                        for cycle in 0..cycles {
+                            // the connection ends
+                            match end {
+                                End::LinkFailure => { r.events(c.id, Event::Disconnect); settle(&mut r); }
+                                End::DisconnectPacket => send(&mut r, &c, vec![Packet::Disconnect(crate::protocol::Disconnect { reason_code: crate::protocol::DisconnectReasonCode::NormalDisconnection }, None)]),
+                                End::Takeover => {}
+                            }
+                            // messages accepted while the client is away (or until it is taken over)
+                            if cycle == 0 {
+                                for _ in 0..k2 {
+                                    send(&mut r, &p, vec![publish("s/t", 1, 51, &format!("m{}", seqno), false)]);
+                                    expected_pending.push(format!("m{}", seqno));
+                                    seqno += 1;
+                                }
+                            }
+                            // it comes back under the same client id with clean session off
+                            c = match connect(&mut r, "c", false) {
+                                Some(c) => c,
+                                None => { fail = Some(format!("input=[{}] detail=[reconnect {} refused]", desc, cycle)); break 'outer; }
+                            };
+                            let notes = drain(&mut r, &c);
+                            let txt = shown(&notes);
+                            if !txt.contains(&"CONNACK(sp=true)".to_string()) {
+                                fail = Some(format!("input=[{}] detail=[reconnect {} got {:?}: session not reported present]", desc, cycle, txt));
+                                break 'outer;
+                            }
+                            let redelivered: Vec<String> = notes.iter().filter_map(|n| match n { RNotification::Forward(Forward { publish, .. }) => Some(String::from_utf8_lossy(&publish.payload).to_string()), _ => None }).collect();
+                            last_pkids = notes.iter().filter_map(|n| match n { RNotification::Forward(Forward { publish, .. }) => Some(publish.pkid), _ => None }).collect();
+                            if redelivered != expected_pending {
+                                fail = Some(format!("input=[{}] detail=[after reconnect {} (no re-subscribe) the client received {:?}, expected {:?}: unacknowledged ones again, acknowledged ones not, then what arrived while away]", desc, cycle, redelivered, expected_pending));
+                                break 'outer;
+                            }
+                            // second cycle: nothing is acknowledged in between, so the same messages are due again
+                        }
+                        // subscriptions are still in force: a new publish reaches the client without re-subscribing
+                        // (first acknowledge what is outstanding, in order)
+                        let outstanding: Vec<Packet> = last_pkids.iter().map(|k| puback(*k)).collect();
+                        if !outstanding.is_empty() {
+                            send(&mut r, &c, outstanding);
+                        }
+                        send(&mut r, &p, vec![publish("s/t", 1, 52, "fresh", false)]);
+                        let live: Vec<String> = drain(&mut r, &c).iter().filter_map(|n| match n { RNotification::Forward(Forward { publish, .. }) => Some(String::from_utf8_lossy(&publish.payload).to_string()), _ => None }).collect();
+                        if live != vec!["fresh".to_string()] {
+                            fail = Some(format!("input=[{}] detail=[after resume a new matching publish produced {:?}]", desc, live));
+                            break 'outer;
+                        }
+                        // a later clean-session connect reports no session and has no subscriptions and no backlog
+                        r.events(c.id, Event::Disconnect);
+                        settle(&mut r);
+                        send(&mut r, &p, vec![publish("s/t", 1, 53, "late", false)]);
+                        let clean = connect(&mut r, "c", true).unwrap();
+                        let txt = shown(&drain(&mut r, &clean));
+                        if txt != vec!["CONNACK(sp=false)".to_string()] {
+                            fail = Some(format!("input=[{}] detail=[clean-session connect got {:?}]", desc, txt));
+                            break 'outer;
+                        }
+                        send(&mut r, &p, vec![publish("s/t", 1, 54, "later", false)]);
+                        let txt = shown(&drain(&mut r, &clean));
+                        if !txt.is_empty() {
+                            fail = Some(format!("input=[{}] detail=[clean session still has a subscription: {:?}]", desc, txt));
+                            break 'outer;
+                        }
+                    }
+                }
+            }
+        }
+    }
+    report(name, "C08", "0..3 delivered x 0..k acknowledged x 0..2 while away x {link failure, DISCONNECT, takeover} x 1..2 reconnect cycles, then clean-session connect", cases, fail);
+}
+
+// ---------------------------------------------------------------------------------------------
+// C15: retained messages
+// ---------------------------------------------------------------------------------------------
+// @native props=C15 tier=quick fn=Router::{append_to_commitlog,prepare_filter,forward_device_data}+DataLog retained map
+#[test]
+fn retained_messages_follow_the_rules() {
+    let name = "rumqttd::Router#retained_latest_per_topic_cleared_by_empty";
+    // a script is a sequence of retained / non-retained / clearing publishes on two topics
+    #[derive(Clone, Copy, Debug)]
+    enum P { Ret(usize), Plain(usize), Clear(usize) }
+    let acts = [P::Ret(0), P::Ret(1), P::Plain(0), P::Clear(0), P::Clear(1)];
+    let topics = ["r/a", "r/b"];
+    let filters = ["r/a", "r/+", "#", "r/b"];
+    let mut cases = 0u64;
+    let mut fail: Option<String> = None;
+    'outer: for code in 0..(acts.len() * acts.len() * acts.len()) {
+        let script = [acts[code % 5], acts[(code / 5) % 5], acts[code / 25]];
+        for f in filters.iter() {
+            for q in 0..2u8 {
+                cases += 1;
+                let desc = format!("publishes {:?} then a new subscription {:?} QoS {}", script, f, q);
+                let mut r = new_router();
+                let p = connect(&mut r, "p", true).unwrap();
+                let live = connect(&mut r, "live", true).unwrap();
+                send(&mut r, &live, vec![subscribe(1, &[("r/#", 0)])]);
+                let _ = drain(&mut r, &live);
+                let mut retained: [Option<String>; 2] = [None, None];
+                let mut live_expected = vec![];
+                for (k, a) in script.iter().enumerate() {
+                    let (t, payload, ret) = match a {
+                        P::Ret(t) => { let s = format!("v{}", k); retained[*t] = Some(s.clone()); (*t, s, true) }
+                        P::Plain(t) => (*t, format!("v{}", k), false),
+                        P::Clear(t) => { retained[*t] = None; (*t, String::new(), true) }
+                    };
+                    send(&mut r, &p, vec![publish(topics[t], 0, 0, &payload, ret)]);
+                    live_expected.push((topics[t].to_string(), payload, 0u8, false));
+                }
+                let live_got = receive_all(&mut r, &live);
+                if live_got != live_expected {
+                    fail = Some(format!("input=[{}] detail=[an existing subscriber received {:?}, expected {:?} (live copies are not flagged retained)]", desc, live_got, live_expected));
+                    break 'outer;
+                }
+                let s = connect(&mut r, "s", true).unwrap();
+                send(&mut r, &s, vec![subscribe(2, &[(f, q)])]);
+                let mut got = receive_all(&mut r, &s);
+                got.sort();
+                let mut exp: Vec<(String, String, u8, bool)> = (0..2).filter(|t| ref_matches(topics[*t], f)).filter_map(|t| retained[t].clone().map(|v| (topics[t].to_string(), v, q, true))).collect();
+                exp.sort();
+                if got != exp {
+                    fail = Some(format!("input=[{}] detail=[the new subscriber received {:?}, expected the latest retained message of each matching topic, flagged retained: {:?}]", desc, got, exp));
+                    break 'outer;
+                }
+                // repeating the subscription does not replay
+                send(&mut r, &s, vec![subscribe(3, &[(f, q)])]);
+                let again = receive_all(&mut r, &s);
+                if !again.is_empty() {
+                    fail = Some(format!("input=[{}] detail=[repeating the subscription replayed {:?}]", desc, again));
+                    break 'outer;
+                }
+                // a shared-group subscription does not replay retained messages
+                let g = connect(&mut r, "g", true).unwrap();
+                send(&mut r, &g, vec![subscribe(4, &[(&format!("$share/grp/{}", f), q)])]);
+                let shared = receive_all(&mut r, &g);
+                if !shared.is_empty() {
+                    fail = Some(format!("input=[{}] detail=[a shared subscription replayed retained messages {:?}]", desc, shared));
+                    break 'outer;
+                }
+            }
+        }
+    }
+    report(name, "C15", "all 125 scripts of 3 retained/plain/clearing publishes on 2 topics x 4 filters x QoS 0/1; re-subscribe and shared subscribe afterwards", cases, fail);
+}
+
+// ---------------------------------------------------------------------------------------------
+// C17: shared subscriptions
+// ---------------------------------------------------------------------------------------------
+// @native props=C17 tier=quick fn=SharedGroup+Router::{prepare_filter,forward_device_data,handle_disconnection}
+#[test]
+fn shared_group_hands_each_message_to_exactly_one_member() {
+    let name = "rumqttd::Router#shared_subscription_exactly_one_member";
+    let mut cases = 0u64;
+    let mut fail: Option<String> = None;
+    'outer: for strategy in [Strategy::RoundRobin, Strategy::Sticky, Strategy::Random] {
+        for members in 1..=3usize {
+            for n in [0usize, 1, 5, 12] {
+                for q in 0..2u8 {
+                    for leave in [None, Some(0usize), Some(1)] {
+                        if leave.map_or(false, |l| l >= members) {
+                            continue;
+                        }
+                        cases += 1;
+                        let desc = format!("strategy {:?}, {} members, {} messages QoS {}, member leaving midway: {:?}", strategy, members, n, q, leave);
+                        let mut r = Router::new(0, cfg(1024 * 1024, 10, strategy.clone()));
+                        let p = connect(&mut r, "p", true).unwrap();
+                        let outsider = connect(&mut r, "outsider", true).unwrap();
+                        send(&mut r, &outsider, vec![subscribe(9, &[("other/#", 0)])]);
+                        let _ = drain(&mut r, &outsider);
+                        let mut ms = vec![];
+                        for i in 0..members {
+                            let m = connect(&mut r, &format!("m{}", i), true).unwrap();
+                            send(&mut r, &m, vec![subscribe(1, &[("$share/g/j/+", q)])]);
+                            let _ = drain(&mut r, &m);
+                            ms.push(m);
+                        }
+                        let mut got: Vec<Vec<String>> = vec![vec![]; members];
+                        let mut gone: Option<usize> = None;
+                        for k in 0..n {
+                            if k == n / 2 {
+                                if let Some(l) = leave {
+                                    if members > 1 {
+                                        r.events(ms[l].id, Event::Disconnect);
+                                        settle(&mut r);
+                                        gone = Some(l);
+                                    }
+                                }
+                            }
+                            send(&mut r, &p, vec![publish("j/x", q, if q == 0 { 0 } else { 30 }, &format!("{}", k), false)]);
+                            // every member consumes and acknowledges promptly
+                            for (i, m) in ms.iter().enumerate() {
+                                if gone == Some(i) {
+                                    continue;
+                                }
+                                for g in receive_all(&mut r, m) {
+                                    got[i].push(g.1);
+                                }
+                            }
+                        }
+                        for (i, m) in ms.iter().enumerate() {
+                            if gone != Some(i) {
+                                for g in receive_all(&mut r, m) {
+                                    got[i].push(g.1);
+                                }
+                            }
+                        }
+                        let stray = receive_all(&mut r, &outsider);
+                        if !stray.is_empty() {
+                            fail = Some(format!("input=[{}] detail=[a non-member received {:?} through the group]", desc, stray));
+                            break 'outer;
+                        }
+                        let mut all: Vec<usize> = got.iter().flatten().map(|s| s.parse::<usize>().unwrap()).collect();
+                        let delivered = all.len();
+                        all.sort();
+                        all.dedup();
+                        if all.len() != delivered {
+                            fail = Some(format!("input=[{}] detail=[some message was handed to more than one member / twice: {:?}]", desc, got));
+                            break 'outer;
+                        }
+                        for g in &got {
+                            let v: Vec<usize> = g.iter().map(|s| s.parse().unwrap()).collect();
+                            if v.windows(2).any(|w| w[0] >= w[1]) {
+                                fail = Some(format!("input=[{}] detail=[a member saw its share out of acceptance order: {:?}]", desc, got));
+                                break 'outer;
+                            }
+                        }
+                        // the group stayed non-empty and everyone acknowledged: every message went to some member
+                        if gone.is_none() && delivered != n {
+                            fail = Some(format!("input=[{}] detail=[{} of {} messages forwarded, broker idle, all acknowledged: {:?}]", desc, delivered, n, got));
+                            break 'outer;
+                        }
+                    }
+                }
+            }
+        }
+    }
+    report(name, "C17", "3 strategies x 1..3 members x 0,1,5,12 messages x QoS 0/1 x (no one / first / second member leaves midway); members consume and acknowledge promptly", cases, fail);
+}
